@@ -56,7 +56,7 @@ def run(tier):
                     if cl['stderr_len']:
                         return 'compression prints on stderr'
                     if cl['inv']:
-                        return 'scheduler counter invariant broken'
+                        return 'invariant broken: ' + sched.inv_text(cl['inv'], cl.get('note', ''))
                     # decompress this outcome class's output (once per class)
                     key = (cl['stdout_hash'], cl['stdout_len'])
                     if key not in orc.cache:
